@@ -66,10 +66,85 @@ func main() {
 	switch os.Args[1] {
 	case "verify":
 		os.Exit(verify(os.Args[2:]))
+	case "names":
+		os.Exit(recordNames(os.Args[2:]))
 	default:
 		fmt.Fprintln(os.Stderr, "unknown command")
 		os.Exit(2)
 	}
+}
+
+// recordNames writes the parameter / result / local names (and the static callees) of
+// every repository function that has a contract: the names the contracts refer to.
+// With --check it only compares the file with the current tree.
+func recordNames(argv []string) int {
+	fs := flag.NewFlagSet("names", flag.ExitOnError)
+	repo := fs.String("repo", "/repo", "repository")
+	verif := fs.String("verif", "/verif", "verif dir")
+	check := fs.Bool("check", false, "compare only")
+	fs.Parse(argv)
+	specs := vc.NewSpecs()
+	if err := specs.LoadDir(filepath.Join(*verif, "contracts", "trusted")); err != nil {
+		fmt.Println(err)
+		return 2
+	}
+	if err := specs.LoadDir(filepath.Join(*verif, "contracts")); err != nil {
+		fmt.Println(err)
+		return 2
+	}
+	files, _ := findContractFiles(*repo)
+	pkgSet := map[string]bool{}
+	for _, f := range files {
+		rel, _ := filepath.Rel(*repo, filepath.Dir(f))
+		pkgPath := vc.ModulePath
+		if rel != "." {
+			pkgPath += "/" + filepath.ToSlash(rel)
+		}
+		if err := specs.LoadFile(f, pkgPath); err != nil {
+			fmt.Println(err)
+			return 2
+		}
+		pkgSet[pkgPath] = true
+	}
+	var patterns []string
+	for p := range pkgSet {
+		patterns = append(patterns, p)
+	}
+	sort.Strings(patterns)
+	P, err := vc.Load(*repo, patterns, nil)
+	if err != nil {
+		fmt.Println(err)
+		return 2
+	}
+	out := map[string]*vc.FuncNames{}
+	for k, fc := range specs.Funcs {
+		if fc.IsIface {
+			continue
+		}
+		fn := P.ByKey[k]
+		if fn == nil || fn.Blocks == nil || fn.Pkg == nil || !vc.IsRepoPath(fn.Pkg.Pkg.Path()) {
+			continue
+		}
+		out[k] = P.CurrentNames(fn)
+	}
+	b, _ := json.MarshalIndent(out, "", " ")
+	b = append(b, '\n')
+	path := filepath.Join(*verif, "contracts", "names.json")
+	if *check {
+		old, _ := os.ReadFile(path)
+		if string(old) != string(b) {
+			fmt.Println("names.json differs from the current tree")
+			return 1
+		}
+		fmt.Printf("names.json up to date (%d functions)\n", len(out))
+		return 0
+	}
+	if err := os.WriteFile(path, b, 0644); err != nil {
+		fmt.Println(err)
+		return 2
+	}
+	fmt.Printf("recorded names of %d functions in %s\n", len(out), path)
+	return 0
 }
 
 func verify(argv []string) int {
@@ -192,6 +267,10 @@ func verify(argv []string) int {
 	}
 	P.Specs = specs
 	P.ComputeMods()
+	// names the contracts were written against (tolerates renamed parameters / locals)
+	if err := P.LoadRecordedNames(filepath.Join(*verif, "contracts", "names.json")); err != nil && !os.IsNotExist(err) {
+		return undecided("recorded names: %v", err)
+	}
 	loadS := time.Since(start).Seconds()
 	// ---- obligations ----
 	var obls []*vc.Obligation
